@@ -301,6 +301,25 @@ func recC09(c *ctx) {
 				verify()
 			}
 		}
+		// malformed entries through the NON-expanding addition path (forced, so that it does not take 94 entries to get
+		// there): every kind of malformed entry among valid ones
+		if h%4 == 2 {
+			for _, cl := range []int{4, 5, 6, 9, -1} {
+				bv.Reset()
+				emit(vt.Ev{"op": "reset"})
+				bv.ForceNoPublicKeyExpansion()
+				emit(vt.Ev{"op": "force"})
+				add(mk(0), 0)
+				if cl < 0 {
+					add(wrongLenKey(), 0)
+				} else {
+					add(mk(cl), 0)
+				}
+				add(mk(1), 0)
+				batchonly()
+				verify()
+			}
+		}
 		// batch completeness probe: an all-valid batch whose keys and R values carry torsion (mixed order): valid under the
 		// cofactored rules singly, so the batch equation (which must clear the cofactor of EVERY term) has to hold too
 		if h%4 == 3 {
